@@ -1310,7 +1310,8 @@ def _ext(name):
     return g
 
 
-NUMPY = {'isfinite': (lambda s, x: True),        # real-number model: every value is finite (overflow is outside the model; C18's native corpus looks at it)
+NUMPY = {'isclose': (lambda s, a, b, rtol=1e-05, atol=1e-08, **k: cmp('<=', tabs(lift(a) - lift(b)), lift(Fraction(str(atol))) + lift(Fraction(str(rtol))) * tabs(lift(b)))),   # numpy's documented predicate, over the reals
+         'isfinite': (lambda s, x: True),        # real-number model: every value is finite (overflow is outside the model; C18's native corpus looks at it)
          'exp': _vecmap(_exp1), 'log': _vecmap(_log1), 'sqrt': _vecmap(_sqrt1), 'array': _np_array,
          'multiply': _np_bin(ast.Mult), 'subtract': _np_bin(ast.Sub), 'divide': _np_bin(ast.Div), 'add': _np_bin(ast.Add),
          'power': _np_power, 'sum': _np_sum, 'ones': _np_ones, 'vstack': _np_vstack, 'searchsorted': lambda s, *a, **k: _ext('numpy.searchsorted')(s, *a, **k), 'arange': _np_arange}
